@@ -6,6 +6,8 @@ import (
 	"fmt"
 	"math/big"
 	"strings"
+
+	alliancetypes "github.com/terra-money/alliance/x/alliance/types"
 )
 
 // tol is the stated tolerance for quantities that pass through 18-digit fixed point:
@@ -261,6 +263,22 @@ func (o OracleC04) After(x *Exec, op *Op, res *Res) {
 		nd, ok := post.FindDel(d.D, d.V, d.Denom)
 		if !ok || !nd.Shares.Equal(d.Shares) {
 			x.Fail("C04", "isolation", "%s in %s changed the shares of position %s", op.K, denom, d.Key())
+		}
+	}
+	// a delegate-then-undelegate round trip never returns more than was put in: a freshly
+	// created position must not be reported (nor be worth) more than the amount delegated.
+	// Judged only where the module's arithmetic resolves single units (outside the rounding
+	// regime of the listed finding F-C20c).
+	if op.K == KDelegate {
+		if _, existed := pre.FindDel(op.D, op.V, denom); !existed {
+			if nd, ok := post.FindDel(op.D, op.V, denom); ok && roundTripRegime(post, nd).Cmp(big.NewRat(1, 100)) < 0 {
+				x.Label("c04:round-trip-probed")
+				qc, _ := x.Ctx.CacheContext()
+				qr, err := x.W.Query.AllianceDelegation(qc, &alliancetypes.QueryAllianceDelegationRequest{DelegatorAddr: nd.Del, ValidatorAddr: nd.Val, Denom: denom})
+				if err == nil && qr.Delegation.Balance.Amount.BigInt().Cmp(bigOf(op.Amt)) > 0 {
+					x.Fail("C04", "round-trip", "a fresh delegation of %s %s is reported as %s: undelegating it would return more than was put in", op.Amt, denom, qr.Delegation.Balance.Amount)
+				}
+			}
 		}
 	}
 	// Σ reported values <= TotalTokens + #positions + tol
